@@ -1,6 +1,7 @@
 import MosnVerif.Drive.Util
 import MosnVerif.Model.WeightedCluster
 import MosnVerif.Model.LB
+import MosnVerif.Model.EdfConc
 namespace MosnVerif.Drive.C06
 open MosnVerif.Drive MosnVerif.Model.WeightedCluster
 
@@ -33,6 +34,31 @@ structure WAcc where
   ties : Nat := 0                          -- picks where the float code resolved an exact tie differently from queue order
   mismatch : Option (Nat × String × Nat) := none  -- first position where the served host is not a model pick
 
+def mkHosts (ws : List Nat) : Hosts :=
+  (List.range ws.length).map (fun i => { id := i, weight := ws.getD i 0, healthy := true, req := 0, conn := 0, score := 1 })
+
+/-- follow the served sequence on the model: every served host must be the model's pick in the state reached so far. -/
+def trace (hosts : Hosts) (a : WAcc) : List Nat → WAcc
+  | [] => a
+  | x :: r =>
+    let out := wrrChoose hosts a.st { hints := [some x] }
+    let det := (wrrChoose hosts a.st {}).result
+    let a1 := { a with st := out.st, pos := a.pos + 1, ties := if det == some x then a.ties else a.ties + 1 }
+    if out.result == some x || a.mismatch.isSome then trace hosts a1 r
+    else trace hosts { a1 with mismatch := some (a.pos, showOpt out.result, x) } r
+where
+  showOpt : Option Nat → String
+    | none => "-"
+    | some i => toString i
+
+def digits (tok : String) : List Nat := if tok == "-" then [] else tok.toList.map (fun c => c.toNat - '0'.toNat)
+
+def insertNat (x : Nat) : List Nat → List Nat
+  | [] => [x]
+  | y :: r => if x ≤ y then x :: y :: r else y :: insertNat x r
+
+def sortNat (l : List Nat) : List Nat := l.foldr insertNat []
+
 /-- `wrr <w0,w1,…> <rr0> <warm-up picks|-> => <served hosts, one digit each>`: the real weighted round-robin balancer
 over all-healthy hosts. Agreement: every served host is the model's pick in the model state reached so far (exact ties of
 deadlines may be resolved either way — the float gap); predicate: every window of the served sequence respects
@@ -43,28 +69,50 @@ def wrr (wsTok rr0Tok preTok : String) (impl : List String) : String :=
   match ws?, rr0Tok.toNat?, pre?, impl with
   | some ws, some rr0, some pre, [seqTok] =>
     let n := ws.length
-    let hosts : Hosts := (List.range n).map (fun i => { id := i, weight := ws.getD i 0, healthy := true, req := 0, conn := 0, score := 1 })
+    let hosts := mkHosts ws
     let st0 := newState .wrr hosts rr0 (pre.map some)
     let seq : List Nat := seqTok.toList.map (fun c => c.toNat - '0'.toNat)
-    let rec go (a : WAcc) : List Nat → WAcc
-      | [] => a
-      | x :: r =>
-        let out := wrrChoose hosts a.st { hints := [some x] }
-        let det := (wrrChoose hosts a.st {}).result
-        let a1 := { a with st := out.st, pos := a.pos + 1, ties := if det == some x then a.ties else a.ties + 1 }
-        if out.result == some x || a.mismatch.isSome then go a1 r
-        else go { a1 with mismatch := some (a.pos, showOpt out.result, x) } r
-    let a := go { st := st0 } seq
+    let a := trace hosts { st := st0 } seq
     let inRange := seq.all (fun x => decide (x < n))
     let spec := inRange && windowsOk (wrrW ws) n seq
     match a.mismatch with
     | none => s!"A {if spec then "S" else "V"} ok picks={a.pos} ties-resolved-differently={a.ties}"
     | some (p, m, x) => s!"D {if spec then "S" else "V"} first-mismatch@{p} model={m} impl={x}"
   | _, _, _, _ => "E E bad-case"
-where
-  showOpt : Option Nat → String
-    | none => "-"
-    | some i => toString i
+
+/-- `cwrr <w0,…> <rr0> <warm-up|-> <before> <k> <after> => <before picks> <picks of the k concurrent callers, callback order>
+<values returned to them, sorted> <max callers at the callback at once> <after picks>`: overlapping `ChooseHost` calls on
+the real balancer (gate hook). Model (theorem `nextAndPush_serializable`): concurrent callers are served as if one after
+the other, so the whole sequence `before ++ concurrent ++ after` must be a trace of the sequential scheduler, and — the
+regenerated step program holding the lock across the callback — at most one caller is at the callback at any time.
+Predicate (independent of regenerated code): every caller is returned a host, the returned hosts are exactly the served
+ones, and every window of the whole sequence respects the lag bound. -/
+def cwrr (wsTok rr0Tok preTok bTok kTok aTok : String) (impl : List String) : String :=
+  let ws? := (wsTok.splitOn ",").mapM String.toNat?
+  let pre? := if preTok == "-" then some [] else (preTok.splitOn ",").mapM String.toNat?
+  match ws?, rr0Tok.toNat?, pre?, bTok.toNat?, kTok.toNat?, aTok.toNat?, impl with
+  | some ws, some rr0, some pre, some b, some k, some af, [pbTok, concTok, retTok, mhTok, paTok] =>
+    let n := ws.length
+    let hosts := mkHosts ws
+    let st0 := newState .wrr hosts rr0 (pre.map some)
+    let pb := digits pbTok
+    let conc := digits concTok
+    let ret := digits retTok
+    let pa := digits paTok
+    let seq := pb ++ conc ++ pa
+    let a := trace hosts { st := st0 } seq
+    let lens := pb.length == b && conc.length == k && ret.length == k && pa.length == af
+    let inRange := (seq ++ ret).all (fun x => decide (x < n))
+    let spec := lens && inRange && sortNat conc == sortNat ret && windowsOk (wrrW ws) n seq
+    let exclusive := mhTok == "1"
+    let expectExclusive := MosnVerif.Model.EdfConc.lockHeld MosnVerif.Gen.EdfLock.nextAndPush
+    let v := if spec then "S" else "V"
+    match a.mismatch with
+    | none =>
+      if expectExclusive && !exclusive then s!"D {v} callers-at-callback={mhTok} model=1"
+      else s!"A {v} ok picks={a.pos} ties-resolved-differently={a.ties} at-callback={mhTok}"
+    | some (p, m, x) => s!"D {v} first-mismatch@{p} model={m} impl={x} at-callback={mhTok}"
+  | _, _, _, _, _, _, _ => "E E bad-case"
 
 end WRR
 
@@ -72,6 +120,7 @@ def run (caseToks impl : List String) : String :=
   match caseToks with
   | ["wc", vec, draw] => wc vec draw impl
   | ["wrr", ws, rr0, pre] => wrr ws rr0 pre impl
+  | ["cwrr", ws, rr0, pre, b, k, a] => cwrr ws rr0 pre b k a impl
   | _ => "E E unknown-kind"
 
 end MosnVerif.Drive.C06
